@@ -715,6 +715,11 @@ def g_xray():
             yield {"cls": "XRayTransform3D", "ishape": ish, "det": det, "angles": a, "seq": "X"}
             yield {"cls": "XRayTransform3D", "ishape": ish, "det": det, "angles": a, "seq": "Y"}
             yield {"cls": "XRayTransform3D", "ishape": ish, "det": det, "angles": a, "seq": "Z", "shift": [1.25, -0.75]}
+    # more than MAX_SLICE_LEN = 10 slices along axis 0: the slab loops of _project / _back_project run twice and the
+    # second slab needs its slice offset (views whose matrix has a non-zero first column)
+    for ish, det in [([11, 1, 2], [12, 3]), ([12, 2, 1], [13, 3]), ([21, 1, 1], [22, 2])]:
+        yield {"cls": "XRayTransform3D", "ishape": ish, "det": det, "angles": [0.0, 0.4], "seq": "Y"}
+        yield {"cls": "XRayTransform3D", "ishape": ish, "det": det, "angles": [0.3], "seq": "Z"}
 
 
 def base_leaves_for_derived():
